@@ -58,6 +58,7 @@ type replayFile struct {
 	ShrinkArrays []string        `json:"shrink_arrays"`
 	ShrinkInts   []string        `json:"shrink_ints"`
 	Trace        []string        `json:"trace,omitempty"`
+	Prelude      int             `json:"prelude,omitempty"` // preceding seeds to run first
 }
 
 var pragmaCols = map[string]bool{"cid": true, "name": true, "type": true, "notnull": true, "dflt_value": true, "pk": true,
@@ -841,6 +842,12 @@ func TestVerifGpkgsim(t *testing.T) {
 				}
 				out.Line(map[string]interface{}{"t": "cand", "cand": ci, "class": v.Class, "message": v.Message})
 				os.Exit(0)
+			}
+			for k := rf.Prelude; k >= 1; k-- {
+				if rf.Seed >= uint64(k) {
+					pw, pfp, pmp, pms := genWork(rf.Seed - uint64(k))
+					runOne(t, &pw, pfp, pmp, pms, rf.Seed-uint64(k), nil, false, false, filepath.Join(job.Scratch, "prelude"))
+				}
 			}
 			if rf.Workload.PageSize >= 1 && (rf.Workload.Mode != "pipeline" || len(rf.Workload.Targets) > 0) {
 				rr := runOne(t, &rf.Workload, rf.Faults, mp, rf.MapSeed, rf.Seed, rf.Tape, true, true, filepath.Join(job.Scratch, "cand"))
